@@ -16,6 +16,7 @@ func TestC15(t *testing.T) {
 	r := newRun(t, "C15", "fault_enumeration")
 	defer r.Finish(t)
 	r.Rule = "(1) contract monitor: the configured divider is wrapped in every scenario of the families general / v1 add-remove (all variants, Fair/Rate/custom dividers); each of its calls is checked: list strictly descending, every element configured (v1: from the start of AddInput until RemoveInput has returned), dividend <= H, v2: non-nil distribution. (2) fault enumeration: per base scenario a fault-free run counts the divider calls K; one fault {+1 to the first listed key, double the increments, -1 from a non-zero increment, +1 to a configured priority that is NOT in the list (lists that are a strict subset)} is then placed at EVERY call index in [0, W] (W = min(K, 45)), at a seeded sample of later indices, and by state trigger (first round division with j items in flight for j in 0..min(H,10), first with a list of m priorities for m in 1..P, first remainder division of a second phase); a placement counts only if the returned added total is non-zero and differs from the dividend. Oracle per injected fault: creation (v2): New returns ErrDividerBad; otherwise Err() yields ErrDividerBad, total received lies in [received-at-fault + len(output)-at-fault, same+1], capacity bound keeps holding, Err()/Output() close within 50us virtual after the harness releases what it holds. (3) constructor: (priorities, divider, H) grid, some listed priority with a zero or absent share => v2 New must fail. non-trivial = a run in which a fault was actually injected; distinct by (scenario, placement, kind)"
+	r.Rule += " | also: the first round division after GracefulStop() was requested (v1)"
 	r.Assumptions = []string{prioAssume, "a single divider fault per run"}
 	r.Floor = 30
 	if replayPrio(t, r) {
